@@ -225,6 +225,9 @@ func checkC10(c *Ctx, r *Report) {
 	// ---------------- C10.f validation is a function of the project: no process-wide memo
 	ruleGlobalState(c, r, "C10.f", []string{"core/", "common", "gast", "graphs", "definitions"}, map[string]string{},
 		"no package-level variable of the analysis/validation packages is mutated at run time (a verdict must not depend on what was validated before)")
+
+	ruleHelperShape(c, r, "C10.a", helperShape{Fn: "(core/validators/diagnostics.EntityDiagnostic).Empty", AllowedCalls: []string{"builtin.len"}, MustFields: []string{"Diagnostics", "Children"},
+		Why: "an entity is empty only if it has neither own diagnostics nor children (a non-empty one is never dropped from the result)"})
 }
 
 // sliceReaches: `target` is in the backward slice of v.
